@@ -216,6 +216,17 @@ def rule_individual(ctx):
         hv = vis["head"].env.get(v)
         if isinstance(hv, Poly) and hv.as_atom() is not None and hv.as_atom().kind == "sym":
           head_syms[hv.as_atom()] = v
+      # the accumulator itself may be carried, but what earlier artifacts left in it must not steer how this artifact is examined
+      whs = set()
+      for inf_ in b.loops():
+        for v_ in inf_["visits"]:
+          hv_ = v_["head"].env.get(wv) if wv else None
+          if isinstance(hv_, Poly) and hv_.as_atom() is not None and hv_.as_atom().kind == "sym":
+            whs.add(repr(hv_.as_atom()))
+      if whs:
+        for kind, val, s, since, v2 in [bp for inf_ in b.loops() for bp in inf_["body_paths"]]:
+          if any(any(h_ in repr(c) for h_ in whs) for c, pol, node in s.pc[len(vis["head"].pc):]):
+            probs.append("the batch accumulator `%s` is tested inside an artifact's pass: whether an earlier artifact was weak changes how this one is examined" % wv)
       if not head_syms:
         continue
       for kind, val, s, since, v2 in info["body_paths"]:
